@@ -1416,6 +1416,11 @@ fn gen_c10(ctx: &mut Ctx) {
             ctx.case(line.clone(), true, "long-polling");
             let short = format!("CT {} <{} in-progress reports>", opstr, n);
             ctx.monitor(outcome == "DONE" && trace.len() == script.len() && !after_err, "C11-invariants", &short, &format!("outcome {} after {} messages", outcome, trace.len()));
+            if n == 25_000 {
+                // the same on an ordinary 2 MiB stack (a child process): polling must not cost stack
+                let res = ctx.case(format!("CHILD {}", line), true, "long-polling-small-stack");
+                ctx.monitor(res.ends_with("=> DONE") || res == "UNAVAILABLE", "C11-invariants", &format!("CHILD {}", short), &res[res.len().saturating_sub(60)..]);
+            }
         }
     }
     // a bus that takes real time (thorough tier only: each case costs its delay): an in-progress report arriving 6 s and
